@@ -2,7 +2,7 @@
 (***************************************************************************)
 (* Value universe and heap of the smartquery abstract machine.             *)
 (*                                                                         *)
-(* Values are records tagged by `t` (see CONVENTIONS.md).  Lists and dicts *)
+(* Values are records tagged by t (see CONVENTIONS.md).  Lists and dicts *)
 (* live in a heap (sequence of objects, address = index) because programs  *)
 (* can alias and mutate them; everything else is immutable.                *)
 (*                                                                         *)
@@ -20,6 +20,12 @@ Prec == 28
 Fuel == 12          \* nesting depth of containers the specification follows
 
 IsVal(r)    == "t" \in DOMAIN r
+\* three-valued results of comparisons (TLC cannot compare booleans with strings)
+T3 == 1   F3 == 0   U3 == 2   TY3 == 3      \* true, false, unspecified, TypeError
+B3(b) == IF b THEN T3 ELSE F3
+\* "no string": the sentinel of operators that return code points
+BadStr == <<-1>>
+IsBadStr(s) == s = BadStr
 IsExc(r)    == "exc" \in DOMAIN r
 IsUnspec(r) == "unspec" \in DOMAIN r
 
@@ -125,33 +131,33 @@ NumEq(a, b) == DecCmp(AsDec(a), AsDec(b)) = 0
 RECURSIVE ValEq(_, _, _, _)
 RECURSIVE SeqEq(_, _, _, _, _)
 RECURSIVE DictSub(_, _, _, _, _)
-\* returns TRUE, FALSE or "unspec"
+\* returns T3, F3 or U3
 ValEq(h, a, b, fuel) ==
-    IF fuel = 0 THEN "unspec"
-    ELSE IF IsNum(a) /\ IsNum(b) THEN NumEq(a, b)
-    ELSE IF a.t # b.t THEN FALSE
-    ELSE CASE a.t = "none" -> TRUE
-           [] a.t = "str" -> a.s = b.s
-           [] a.t = "tuple" -> IF Len(a.items) # Len(b.items) THEN FALSE ELSE SeqEq(h, a.items, b.items, 1, fuel - 1)
-           [] a.t = "list" -> IF a.addr = b.addr THEN TRUE
-                              ELSE IF LenOf(h, a) # LenOf(h, b) THEN FALSE
+    IF fuel = 0 THEN U3
+    ELSE IF a.t = "opaque" \/ b.t = "opaque" THEN U3
+    ELSE IF IsNum(a) /\ IsNum(b) THEN B3(NumEq(a, b))
+    ELSE IF a.t # b.t THEN F3
+    ELSE CASE a.t = "none" -> T3
+           [] a.t = "str" -> B3(a.s = b.s)
+           [] a.t = "tuple" -> IF Len(a.items) # Len(b.items) THEN F3 ELSE SeqEq(h, a.items, b.items, 1, fuel - 1)
+           [] a.t = "list" -> IF a.addr = b.addr THEN T3
+                              ELSE IF LenOf(h, a) # LenOf(h, b) THEN F3
                               ELSE SeqEq(h, Items(h, a), Items(h, b), 1, fuel - 1)
-           [] a.t = "dict" -> IF a.addr = b.addr THEN TRUE
-                              ELSE IF LenOf(h, a) # LenOf(h, b) THEN FALSE
+           [] a.t = "dict" -> IF a.addr = b.addr THEN T3
+                              ELSE IF LenOf(h, a) # LenOf(h, b) THEN F3
                               ELSE DictSub(h, Items(h, a), Items(h, b), 1, fuel - 1)
-           [] a.t = "slice" -> "unspec"
-           [] a.t = "opaque" -> "unspec"
-           [] OTHER -> a = b          \* lambda / builtin / hostfn: identity
+           [] a.t = "slice" -> U3
+           [] OTHER -> B3(a = b)          \* lambda / builtin / hostfn: identity
 \* Python compares list elements with identity-or-equality
 SeqEq(h, xs, ys, i, fuel) ==
-    IF i > Len(xs) THEN TRUE
+    IF i > Len(xs) THEN T3
     ELSE LET e == ValEq(h, xs[i], ys[i], fuel) IN
-         IF e = "unspec" THEN "unspec" ELSE IF e = FALSE THEN FALSE ELSE SeqEq(h, xs, ys, i + 1, fuel)
+         IF e # T3 THEN e ELSE SeqEq(h, xs, ys, i + 1, fuel)
 DictSub(h, ps, qs, i, fuel) ==
-    IF i > Len(ps) THEN TRUE
-    ELSE IF ~DHas(qs, ps[i][1]) THEN FALSE
+    IF i > Len(ps) THEN T3
+    ELSE IF ~DHas(qs, ps[i][1]) THEN F3
     ELSE LET e == ValEq(h, ps[i][2], DGet(qs, ps[i][1]), fuel) IN
-         IF e = "unspec" THEN "unspec" ELSE IF e = FALSE THEN FALSE ELSE DictSub(h, ps, qs, i + 1, fuel)
+         IF e # T3 THEN e ELSE DictSub(h, ps, qs, i + 1, fuel)
 
 Eq(h, a, b) == ValEq(h, a, b, Fuel)
 
@@ -164,21 +170,21 @@ CpsLt(a, b, i) == IF i > Len(b) THEN FALSE
 
 RECURSIVE ValLt(_, _, _, _)
 RECURSIVE SeqLt(_, _, _, _, _)
-\* TRUE / FALSE / "type" / "unspec"
+\* T3 / F3 / TY3 / U3
 ValLt(h, a, b, fuel) ==
-    IF fuel = 0 THEN "unspec"
-    ELSE IF IsNum(a) /\ IsNum(b) THEN DecCmp(AsDec(a), AsDec(b)) = -1
-    ELSE IF a.t = "str" /\ b.t = "str" THEN CpsLt(a.s, b.s, 1)
+    IF fuel = 0 THEN U3
+    ELSE IF a.t = "opaque" \/ b.t = "opaque" THEN U3
+    ELSE IF IsNum(a) /\ IsNum(b) THEN B3(DecCmp(AsDec(a), AsDec(b)) = -1)
+    ELSE IF a.t = "str" /\ b.t = "str" THEN B3(CpsLt(a.s, b.s, 1))
     ELSE IF a.t = "tuple" /\ b.t = "tuple" THEN SeqLt(h, a.items, b.items, 1, fuel - 1)
     ELSE IF a.t = "list" /\ b.t = "list" THEN SeqLt(h, Items(h, a), Items(h, b), 1, fuel - 1)
-    ELSE IF a.t = "opaque" \/ b.t = "opaque" THEN "unspec"
-    ELSE "type"
+    ELSE TY3
 \* lexicographic: first position where elements differ (by ==) decides by <
 SeqLt(h, xs, ys, i, fuel) ==
-    IF i > Len(xs) \/ i > Len(ys) THEN Len(xs) < Len(ys)
+    IF i > Len(xs) \/ i > Len(ys) THEN B3(Len(xs) < Len(ys))
     ELSE LET e == ValEq(h, xs[i], ys[i], fuel) IN
-         IF e = "unspec" THEN "unspec"
-         ELSE IF e = TRUE THEN SeqLt(h, xs, ys, i + 1, fuel)
+         IF e = U3 THEN U3
+         ELSE IF e = T3 THEN SeqLt(h, xs, ys, i + 1, fuel)
          ELSE ValLt(h, xs[i], ys[i], fuel)
 
 Lt(h, a, b) == ValLt(h, a, b, Fuel)
@@ -208,17 +214,17 @@ cColonSp == <<58, 32>>
 SimpleChar(c) == c >= 32 /\ c <= 126 /\ c # 92
 HasCp(s, c) == \E i \in 1..Len(s) : s[i] = c
 StrRepr(s) ==
-    IF \E i \in 1..Len(s) : ~SimpleChar(s[i]) THEN "unspec"
-    ELSE IF HasCp(s, 39) /\ HasCp(s, 34) THEN "unspec"
+    IF \E i \in 1..Len(s) : ~SimpleChar(s[i]) THEN BadStr
+    ELSE IF HasCp(s, 39) /\ HasCp(s, 34) THEN BadStr
     ELSE IF HasCp(s, 39) THEN <<34>> \o s \o <<34>>
     ELSE <<39>> \o s \o <<39>>
 
 RECURSIVE ValStr(_, _, _, _)
 RECURSIVE JoinRepr(_, _, _, _, _)
 RECURSIVE JoinDictRepr(_, _, _, _, _)
-\* asRepr = TRUE: repr(), FALSE: str().  Result: cps or "unspec"
+\* asRepr = TRUE: repr(), FALSE: str().  Result: cps or BadStr
 ValStr(h, v, asRepr, fuel) ==
-    IF fuel = 0 THEN "unspec"
+    IF fuel = 0 THEN BadStr
     ELSE CASE v.t = "none" -> cNone
            [] v.t = "bool" -> IF v.b THEN cTrue ELSE cFalse
            [] v.t = "dec" -> IF asRepr /\ ~v.sub THEN cDecOpen \o DecToStr(DRep(v)) \o cDecClose
@@ -227,24 +233,24 @@ ValStr(h, v, asRepr, fuel) ==
            [] v.t = "float" -> v.repr
            [] v.t = "str" -> IF asRepr THEN StrRepr(v.s) ELSE v.s
            [] v.t = "list" -> LET inner == JoinRepr(h, Items(h, v), 1, <<>>, fuel - 1) IN
-                              IF inner = "unspec" THEN "unspec" ELSE <<91>> \o inner \o <<93>>
+                              IF IsBadStr(inner) THEN BadStr ELSE <<91>> \o inner \o <<93>>
            [] v.t = "tuple" -> LET inner == JoinRepr(h, v.items, 1, <<>>, fuel - 1) IN
-                               IF inner = "unspec" THEN "unspec"
+                               IF IsBadStr(inner) THEN BadStr
                                ELSE IF Len(v.items) = 1 THEN <<40>> \o inner \o <<44, 41>>
                                ELSE <<40>> \o inner \o <<41>>
            [] v.t = "dict" -> LET inner == JoinDictRepr(h, Items(h, v), 1, <<>>, fuel - 1) IN
-                              IF inner = "unspec" THEN "unspec" ELSE <<123>> \o inner \o <<125>>
-           [] OTHER -> "unspec"
+                              IF IsBadStr(inner) THEN BadStr ELSE <<123>> \o inner \o <<125>>
+           [] OTHER -> BadStr
 JoinRepr(h, xs, i, acc, fuel) ==
     IF i > Len(xs) THEN acc
     ELSE LET r == ValStr(h, xs[i], TRUE, fuel) IN
-         IF r = "unspec" THEN "unspec"
+         IF IsBadStr(r) THEN BadStr
          ELSE JoinRepr(h, xs, i + 1, IF i = 1 THEN r ELSE acc \o cCommaSp \o r, fuel)
 JoinDictRepr(h, ps, i, acc, fuel) ==
     IF i > Len(ps) THEN acc
     ELSE LET rk == StrRepr(ps[i][1])
              rv == ValStr(h, ps[i][2], TRUE, fuel) IN
-         IF rk = "unspec" \/ rv = "unspec" THEN "unspec"
+         IF IsBadStr(rk) \/ IsBadStr(rv) THEN BadStr
          ELSE JoinDictRepr(h, ps, i + 1, (IF i = 1 THEN <<>> ELSE acc \o cCommaSp) \o rk \o cColonSp \o rv, fuel)
 
 ToStr(h, v)  == ValStr(h, v, FALSE, Fuel)
@@ -256,7 +262,7 @@ ToRepr(h, v) == ValStr(h, v, TRUE, Fuel)
 (***************************************************************************)
 RECURSIVE ReachV(_, _, _, _)
 RECURSIVE ReachSeq(_, _, _, _, _)
-\* set of addresses reachable from v, accumulating in `seen`; fuel guards cycles only via seen
+\* set of addresses reachable from v, accumulating in seen; fuel guards cycles only via seen
 ReachV(h, v, seen, fuel) ==
     IF fuel = 0 THEN seen
     ELSE CASE v.t \in {"list", "dict"} ->
@@ -320,7 +326,7 @@ Plain(h, v) == PlainV(h, v, Fuel)
 (* Casts used by indexing                                                  *)
 (***************************************************************************)
 \* _dict_key_cast: str(key)
-DictKeyCast(h, key) == ToStr(h, key)         \* cps or "unspec"
+DictKeyCast(h, key) == ToStr(h, key)         \* cps or BadStr
 
 \* int(x) as Python does for the values that can reach an index / slice bound:
 \* result IntRep, or an exception / unspec record
